@@ -13,7 +13,7 @@ CLAIMED = {
     text='Kernel-checked theorems: validate_iff, get_spec, set_spec, set_extent, get_after_set, reset_spec, '
          'blocks_refine_map (any op sequence on a block = the same sequence on a partial map, by induction), context_offset, '
          'server-context routing; the model is compared with the real block/context classes on boundary sweeps and random '
-         'op sequences each run (validate is also checked against the block\'s own current contents after ANY history; blocks are built from shared initial lists, which must never be written through; server contexts built in each way a caller can build them; several live in one process and must not share their registry).',
+         'op sequences each run (validate is also checked against the block\'s own current contents after ANY history; blocks are built from shared initial lists, which must never be written through; server contexts built in each way a caller can build them; several live in one process and must not share their registry; slave contexts built with every subset of their four tables left out are checked against four independent maps).',
     design='6/C18', technique='Lean 4 refinement proof (block = partial map) + differential correspondence',
     note='Modelled not verified: Python list slicing and dict order. Values restricted to non-negative ints/bools.'),
 }
@@ -54,7 +54,7 @@ CLAIMED['C14'] = dict(
     text='Kernel-checked: read_size_exact (prediction = 1 + encoded normal response for FC 1-4, 23, every context and quantity, via the C04 '
          'refinement), expected_adu_exact (the ADU length the client computes = the length of the frame the server builds, RTU/ASCII/binary), '
          'write_size_exact, diag_size_exact (every FC 8 sub-function class), exception_size; exhaustive run over all quantities '
-         'through the real server path and through a stub-transport client for RTU/ASCII/binary/TLS/socket framings; client histories (silent unit, local echo, retries answered by exception replies) must ask the port for exactly the bytes that arrive; the REAL ModbusSerialClient is run on a fake port with virtual time where the reply arrives whole or in two bursts.',
+         'through the real server path and through a stub-transport client for RTU/ASCII/binary/TLS/socket framings; client histories (silent unit, local echo, retries answered by exception replies) must ask the port for exactly the bytes that arrive; EVERY history of up to four transactions over {silent, normal reply, exception 2, gateway exception 0x0B, 0x0B from a second unit} is run on every framing and every reply must be read exactly (the one read that directly follows a transaction the same unit left unanswered is made in one piece by design); the REAL ModbusSerialClient is run on a fake port with virtual time where the reply arrives whole or in two bursts.',
     design='6/C14', technique='Lean 4 arithmetic proof over the C04 refinement + exhaustive differential run',
     note='Per-framing overhead is checked on the real framers by the harness (transport stub returns exactly the bytes asked).')
 
@@ -111,7 +111,7 @@ CLAIMED['C11'] = dict(
          'ascii_never_deaf (every valid frame after that is delivered, backlog zero), rtu_step_kinds, rtu_server_decides (server-side length '
          'oracle <= 268 bytes: a decision is taken by then), rtu_server_backlog_bounded (run level, EVERY input and chunking: after each call fewer than 268 bytes stay buffered unless a decoder exception escaped), rtu_server_resync + rtu_server_never_deaf (a waiting receiver that sees 268 bytes of ANY traffic flushes and is aligned, every valid frame after that is delivered in any chunking; hypothesis NoFalseFrame: the window at the head of the noise never passes the CRC along the reads, decidable, non-vacuity example), rtu_flush_resync; rtu_client_counterexample (known finding: '
          'client-side oracle unbounded), rtu_flush_discards_read_counterexample (known finding: the flush takes the rest of the read with it).  Garbage includes heads announcing frames at/beyond the maximum size.  RTU resynchronisation is stated up to the protocol-inherent false-frame case, which the harness '
-         'counts and excludes.',
+         'counts and excludes.  The same histories (garbage, then requests) are driven through the REAL serial server handler on a stream-semantics port (a read returns at most the bytes asked for) for all three serial framings: every request of an arrival that starts after the bound must be answered, and the bytes written agree with the model server.',
     design='6/C11', technique='Lean 4 invariant proof over the receive loop + differential correspondence on garbage/valid histories',
     note='RTU has no delimiter: alignment after noise is recovered at the first failed CRC; a CRC-valid window that starts inside the noise '
          '(probability about 2^-16) is excluded by hypothesis and measured by the harness.')
